@@ -504,6 +504,25 @@ fn check_sets(ctx: &Ctx, ops: &[OpV], sets: &[Vec<R>], rep: &mut Report, layout:
                                 );
                             }
                         }
+                        // one side a singleton: the mixed routes (set against selection, selection against set) answer like set against set
+                        if b.len() == 1 && a.len() > 1 && op.kind != 0 {
+                            let tb = ctx.ts(b[0]);
+                            rep.eval();
+                            match guard(|| rsets[i].test(&o, &tb)) {
+                                Ok(v) if v != got => rep.violation(format!("C13/set/{}/law/set.test-vs-test_set-with-singleton/{}", op.name(), set_class(a, b)), json!({"layout": layout, "A": a, "b": b[0], "set.test_set": got, "set.test": v})),
+                                Err(p) => rep.violation(format!("C13/route/set.test/{}/panic/{}", op.name(), p.class()), json!({"layout": layout, "A": a, "b": b[0], "panic": p.msg, "at": p.loc})),
+                                _ => {}
+                            }
+                        }
+                        if a.len() == 1 && b.len() > 1 && op.kind != 0 {
+                            let ta = ctx.ts(a[0]);
+                            rep.eval();
+                            match guard(|| ta.test_set(&o, &rsets[j])) {
+                                Ok(v) if v != got => rep.violation(format!("C13/set/{}/law/ts.test_set-vs-test_set-with-singleton/{}", op.name(), set_class(a, b)), json!({"layout": layout, "a": a[0], "B": b, "set.test_set": got, "ts.test_set": v})),
+                                Err(p) => rep.violation(format!("C13/route/ts.test_set/{}/panic/{}", op.name(), p.class()), json!({"layout": layout, "a": a[0], "B": b, "panic": p.msg, "at": p.loc})),
+                                _ => {}
+                            }
+                        }
                         // singleton sets == members, through every public route
                         if a.len() == 1 && b.len() == 1 {
                             let ta = ctx.ts(a[0]);
@@ -605,7 +624,7 @@ pub fn sub_universe(len: usize, n: usize, rng: &mut Rng) -> Vec<R> {
 }
 
 pub fn run(p: &Params, rep: &mut Report) {
-    rep.rule = "exhaustive: every ordered pair of ranges (incl. zero-width) of each text layout x every operator x every all/negate/limit/whitespace combination through ResultTextSelection::test; every ordered pair of sets of size<=2 (3 in thorough) over a 10-range sub-universe through ResultTextSelectionSet::test_set (+ singleton routes test/test_set on selections and sets, ResultItem<Annotation>::test). distinct_nontrivial = distinct (level, operator variant, Allen geometry class | set sizes) cells in which the reference says the relation HOLDS".into();
+    rep.rule = "exhaustive: every ordered pair of ranges (incl. zero-width) of each text layout x every operator x every all/negate/limit/whitespace combination through ResultTextSelection::test; every ordered pair of sets of size<=2 (3 in thorough) over a 10-range sub-universe through ResultTextSelectionSet::test_set (+ the mixed routes set.test(selection) and selection.test_set(set) whenever one side is a singleton, ResultItem<Annotation>::test). distinct_nontrivial = distinct (level, operator variant, Allen geometry class | set sizes) cells in which the reference says the relation HOLDS".into();
     rep.assumptions = vec![
         "overlap with a zero-width range is not defined by the documentation: only the algebraic laws are demanded there".into(),
         "set semantics are taken from the README ('Each TextSelection in A ... a TextSelection in B', for EMBEDS 'All TextSelections in B are embedded by a TextSelection in A') and the doc comments of TextSelectionOperator".into(),
